@@ -1,7 +1,8 @@
 (* C13 - schema defaults in the JSON tree decoder (statements only; proofs in Proofs/DefaultsProofs.v, built on the exact
    characterisation of Proofs/MissingProofs.v).
 
-     lit_value e w ig pF f t lit      the decoding of the literal: parse_json lit, then decJ ... f true t jd tracker0
+     lit_value e w ig pF f t lit      the decoding of the literal: parse_json lit, then decJ e w ps_empty 0 pF f true t jd tracker0
+                                      (NewJsonReader: no exclusions, scopeToIgnore 0 - DefaultsProofs.lit_value_unfold)
      own_slot_spec ... f filled es fd what the slot of OWN field fd holds after decoding the object with entries es:
                                         present (non-null) in the document -> the decoded document value (the document wins)
                                         absent, Required                   -> the Go zero value (and the field is reported)
